@@ -209,12 +209,14 @@ class SyncInterpreter(BaseInterpreter[TContext, TEvent]):
         self._is_processing = True
         try:
             self._enter_states([self.machine])
+            # 🔄 Settle immediate "always" transitions behind the same guard:
+            #    their actions may `raise` too, and an unguarded `send` would
+            #    process that event in the middle of the transition.
+            self._process_transient_transitions()
         finally:
             self._is_processing = False
-        # 📬 Drain anything an entry action raised during that descent.
+        # 📬 Drain anything raised during the descent or while settling.
         self._process_event_queue()
-        # 🔄 Process any immediate "always" transitions upon startup.
-        self._process_transient_transitions()
 
         # Capture the post-transition state set after initialization
         post_states = set(self._active_state_nodes)
